@@ -605,7 +605,8 @@ var cmdSpecs = []cmdSpec{
 			for _, f := range []string{"size-total", "size-up", "size-down", "size-side", "size-same", "dist-all", "dist-up", "dist-down", "dist-side"} {
 				a = append(a, fmtI(s.num(f)))
 			}
-			a = append(a, fmtF(s.flt("threshold-pair")), fmtI(s.num("threshold-target")), fmtB(s.boolean("no-fill")), fmtI(s.num("dist-push")))
+			// --threshold-pair is the one 32-bit float option (TopRanking takes a float32)
+			a = append(a, fmtF(float64(float32(s.flt("threshold-pair")))), fmtI(s.num("threshold-target")), fmtB(s.boolean("no-fill")), fmtI(s.num("dist-push")))
 			return cmdWant{entry: "pkg/updown.TopRanking", args: a}
 		},
 	},
@@ -641,7 +642,7 @@ func baseScenario(n *cmdNode) *scenario {
 		case "float64":
 			s.set(f.name, 0.1+float64(i)) // not representable in 32 bits
 		case "float32":
-			s.set(f.name, 0.25+float64(i))
+			s.set(f.name, 0.1+float64(i)) // pflag stores it rounded to 32 bits; the specification says which flags are 32-bit
 		}
 	}
 	return s
